@@ -188,12 +188,13 @@ Definition do_element (dd : ddesc) (e : elem) (s : st) : result st :=
   elem_body dd e s2.
 
 (* ---- the default process_bitmapped_descriptor (Coder), used at run time ----
-   next_bitmapped_descriptor(): TypeError when never defined, StopIteration
-   when exhausted. *)
+   CoderState.get_next_bitmapped_descriptor(): a library error when no bitmap
+   was ever defined and when the selected descriptors are exhausted (after
+   "fix: a bitmap that is missing or exhausted is reported as PyBufrKitError"). *)
 Definition next_bitmapped (r : regs) : result (backref * regs) :=
   match r_next_bm r with
-  | None => Err EType
-  | Some [] => Err EStopIter
+  | None => Err ELib
+  | Some [] => Err ELib
   | Some (b :: rest) => Ok (b, set_next_bm (Some rest) r)
   end.
 
